@@ -67,12 +67,17 @@ def gen_case(rng, tier):
         "short_reads": rng.random() < 0.2,
     }
     nver = rng.choice([2, 2, 3, 4])
-    contents = [gen.gen_fasta(rng)]
+    big = rng.random() < 0.03
+    contents = [gen.gen_many_rows(rng) if big else gen.gen_fasta(rng)]
+    if big:
+        # scale outlier: keep the event count of one load small
+        knobs.update({"io_buf": rng.choice([4096, 8192]), "text_chunk": 8192, "read_buf": 4096,
+                      "idx_buf": rng.choice([64, 250, 250_000]), "short_reads": False})
     for _ in range(nver - 1):
         contents.append(gen.mutate_fasta(rng, contents[-1]))
-    enabled = [k for k in set(_FAULT_KINDS) if rng.random() < 0.7] or ["crash"]
+    enabled = [k for k in sorted(set(_FAULT_KINDS)) if rng.random() < 0.7] or ["crash"]
     enabled.sort()
-    L = rng.choice([1, 2, 2, 3, 3, 4, 4, 5, 6, 8])
+    L = rng.choice([1, 2, 2, 3, 3, 4, 4, 5, 6, 8]) if not big else rng.choice([1, 2])
     hist = []
     enumerated = False
     cur_v = 0
@@ -202,8 +207,6 @@ class Exec:
                 try:
                     idx, asm = self.index_mod.index_fasta_file(tmp, self.knobs["idx_buf"])
                     ref = (index_canon(idx), asm_canon(asm))
-                    if any(len(s[1]) == 0 for s in ref[1][2]):
-                        ref = None  # zero-row scaffold: not representable in AGP
                 except Exception:  # noqa: BLE001 - the reference rejects this content
                     ref = None
                 if cur is not None:
@@ -433,17 +436,20 @@ class Exec:
                 f"the load returned normally, but these were not rebuilt: {not_rebuilt}", step_i,
             )
             return
-        # what is on disk now must load (fault-free) to the reference
+        # what is on disk now must give the reference when it is loaded again
+        # (through the public entry point: how the cache is validated is the
+        # implementation's business)
         ref = self.reference(self.cur_v)
         with w.suspend():
+            snap = sandbox.snapshot(self.root)
             try:
                 fi = self.index_mod.FastaIndex(self.fa, self.knobs["idx_buf"])
-                fi.load_index()
-                fi.load_assembly()
+                fi.auto_load()
                 got = (index_canon(fi.index), asm_canon(fi.assembly))
             except Exception as e:  # noqa: BLE001
                 got = ("unreadable", repr(e))
             fi = None
+            sandbox.restore(self.root, snap)
         if got != ref:
             self.violate(
                 "O3_rebuilt_cache_wrong", "rebuild-content",
